@@ -11,6 +11,9 @@ CONSTANTS
   DirAtStart = TRUE
   PersistMkdir = TRUE
   LoaderExact = TRUE
+  RefreshTemp = "leave"
+  Faults = {}
+  Cleanup = "temp"
 SPECIFICATION SpecR
 INVARIANTS TypeOK DiskIsASnapshot Converged NewestWins OneTemp
 PROPERTIES Terminates
